@@ -314,6 +314,9 @@ alac_writer_init (SF_PRIVATE *psf)
 	if (psf->file.mode != SFM_WRITE)
 		return SFE_BAD_MODE_RW ;
 
+	if (psf->sf.channels < 1 || psf->sf.channels > ALAC_MAX_CHANNEL_COUNT)
+		return SFE_CHANNEL_COUNT ;
+
 	plac->channels	= psf->sf.channels ;
 	plac->kuki_size = alac_get_magic_cookie_size (psf->sf.channels) ;
 
